@@ -33,8 +33,8 @@ CHECKS = {
         design="DESIGN.md §4 C03",
     ),
     "C04": dict(
-        rules="R04.1-R04.11",
-        what="atomic temporary+os.replace publication and OSError containment in the file store; every MetadataStore.write result checked; no CacheMeta after a failed data write/getmtime; data before meta, provenance of the meta pair, dep_hashes before the meta write, commit after every write group; old meta_ex invalidated before a new meta becomes durable; find_cache_meta treats a missing meta_ex as a miss; a module's records share one shard of the sqlite store (names differ only after the first dot of the basename, which is all the shard key reads); the data write is skipped only after the stored data record was read and compared; blocking errors reported by the build-wide cache writers after process_graph are raised before dispatch returns; a failing modifying statement of the sqlite store surfaces as the failure value / OSError that build.py's handlers expect (R04.11)",
+        rules="R04.1-R04.13",
+        what="atomic temporary+os.replace publication and OSError containment in the file store; every MetadataStore.write result checked; no CacheMeta after a failed data write/getmtime; data before meta, provenance of the meta pair, dep_hashes before the meta write, commit after every write group; old meta_ex invalidated before a new meta becomes durable; find_cache_meta treats a missing meta_ex as a miss; a module's records share one shard of the sqlite store (names differ only after the first dot of the basename, which is all the shard key reads); the data write is skipped only after the stored data record was read and compared; blocking errors reported by the build-wide cache writers after process_graph are raised before dispatch returns; a failing modifying statement of the sqlite store surfaces as the failure value / OSError that build.py's handlers expect (R04.11); every accepting return of validate_meta lies behind the data_mtime comparison (R04.12); the linking time stamp is not coarsened (known finding, R04.13)",
         quant="kill points and failing store operations",
         technique="CFG must-pass-through / reachability queries over the cache-writing functions, who-may-write rule",
         note="Behaviour of sqlite when killed inside commit() and OS-level durability are library/OS behaviour and are not decided. tables/R04.1.json, R04.2.json hold the tabled exceptions.",
@@ -121,8 +121,8 @@ CHECKS = {
         design="DESIGN.md §4 C20",
     ),
     "C12": dict(
-        rules="R12.1-R12.8",
-        what="operator spelling vs operator applied in the constant folders and IR opcode selection; operator tables vs the language reference; guard completeness of every partial operator in mypy/constant_fold.py and mypyc/irbuild/constant_fold.py; argument-kind predicates of call binding; None-or-constant values of the compile-time evaluators are never tested by truthiness; a keyword or TypedDict key never binds to the *args formal of that name; the (*args, **kwargs) duplicate exemption consults the actual types",
+        rules="R12.1-R12.9",
+        what="operator spelling vs operator applied in the constant folders and IR opcode selection; operator tables vs the language reference; guard completeness of every partial operator in mypy/constant_fold.py and mypyc/irbuild/constant_fold.py; argument-kind predicates of call binding; None-or-constant values of the compile-time evaluators are never tested by truthiness; a keyword or TypedDict key never binds to the *args formal of that name; the (*args, **kwargs) duplicate exemption consults the actual types; the and/or tables of infer_condition_value claim true/false only where Kleene's three-valued logic does (all 25 operand pairs evaluated, R12.9)",
         quant="signatures, class hierarchies and constant expressions",
         technique="syntax-directed guard-chain analysis and table comparison against the language reference",
         note="Trusted: the failure-precondition table for CPython arithmetic in sa/rules/c12.py. Call binding, MRO and version/platform evaluation are value-level algorithms and are not decided.",
@@ -145,8 +145,8 @@ CHECKS = {
         design="DESIGN.md §4 C16",
     ),
     "C17": dict(
-        rules="R17.1-R17.12",
-        what="command-line dests vs Options attributes; converter completeness for documented config keys; ini/toml converter table agreement and inversion prefixes; inline comments and per-module sections routed through parse_section; each section applied by its own apply_changes call; precedence orderings by construction (config file before command line, structured before unstructured sections, inline on top); the command line's --strict step is conditional only on the command-line namespace; every list option that apply_changes replays is reset by each section",
+        rules="R17.1-R17.13",
+        what="command-line dests vs Options attributes; converter completeness for documented config keys; ini/toml converter table agreement and inversion prefixes; inline comments and per-module sections routed through parse_section; each section applied by its own apply_changes call; precedence orderings by construction (config file before command line, structured before unstructured sections, inline on top); the command line's --strict step is conditional only on the command-line namespace; every list option that apply_changes replays is reset by each section; every structured section is built on clone_for_module(key), whatever the shape of the key (R17.13)",
         quant="options x sources x conflicting pairs",
         technique="table/AST cross-check of main.define_options, config_parser tables, Options.__init__ and docs/source/config_file.rst",
         note="The precedence algorithm among sections is value-level and not decided. R17.5 (docs wording) is informational only.",
@@ -155,8 +155,8 @@ CHECKS = {
 }
 
 CHECKS["C18"] = dict(
-    rules="R18.1-R18.6",
-    what="graph insertion discipline of build.load_graph: every insertion of a State is dominated by the clash test for its kind (module id already in the graph; file already seen under another id), the clash branch reports a blocker and raises, inserted paths are recorded; find_sources and modulefinder share one suffix table with the stub suffix first and one package marker; verify_module decides `every containing package has an __init__` level by level, not from the topmost level that has one",
+    rules="R18.1-R18.7",
+    what="graph insertion discipline of build.load_graph: every insertion of a State is dominated by the clash test for its kind (module id already in the graph; file already seen under another id), the clash branch reports a blocker and raises, inserted paths are recorded; find_sources and modulefinder share one suffix table with the stub suffix first and one package marker; verify_module decides `every containing package has an __init__` level by level, not from the topmost level that has one; the explicit package bases contain MYPYPATH, mypy_path and the current directory for every combination of empty/non-empty inputs (R18.7)",
     quant="directory layouts x flag settings x argument orders",
     technique="CFG must-pass / reachability queries over load_graph; constant evaluation and sibling cross-check of the two path-mapping modules' tables",
     note="Only the 'stops with a duplicate-module error' half of the statement has a shape in the code. That the name crawl_up assigns to a file is the name under which FindModuleCache resolves an import to that file is a relation between two algorithms over all directory trees and is not decided.",
